@@ -31,6 +31,7 @@ void c01_chan_edges(void *chan, c01_edge_fn fn, void *u);
 int c01_net_fiber_state(JanetFiber *f, c01_edge_fn fn, void *u);
 int c01_os_abstract(const JanetAbstractType *t, void *p, c01_edge_fn fn, void *u);
 int c01_fw_abstract(const JanetAbstractType *t, void *p, c01_edge_fn fn, void *u);
+int c01_ffi_abstract(const JanetAbstractType *t, void *p, c01_edge_fn fn, void *u);
 int c01_fw_fiber_state(JanetFiber *f, c01_edge_fn fn, void *u);
 
 /* ------------------------------------------------------------------ configuration */
@@ -240,6 +241,7 @@ static void abstract_edges(JanetAbstractHead *h, Node *n, sink_fn sink, void *u)
         vals(pg->constants, pg->num_constants, 0, "peg.constants", sink, u);
     } else if (c01_os_abstract(t, p, val_edge, &vs)) {
     } else if (c01_fw_abstract(t, p, val_edge, &vs)) {
+    } else if (c01_ffi_abstract(t, p, val_edge, &vs)) {
     } else if (t->gcmark) {
         n->opaque = 1;
     }
